@@ -65,3 +65,11 @@ func dedupInst(in []*vm.Instance) []*vm.Instance {
 	}
 	return out
 }
+
+// moverPaths are node-set operands whose evaluation walks the shared context cursor away
+// from the context node (predicates, absolute paths, reverse and following/preceding axes,
+// groups, unions): whatever is evaluated after them must still see the context node.
+var moverPaths = []string{"*[1]", "a[@a]", "*[. = '1']", "*[last()]", "/*", "//a", "/*/a", "following::*", "preceding::a", "(*)[1]", "a | //b", "../*", "ancestor::*", "*[a]/a", "//*[@a]", "following-sibling::*[1]"}
+
+// stayPaths are operands relative to the context node that reveal a moved cursor.
+var stayPaths = []string{"a", ".", "@a", "*", "count(*)", "name()", "string-length(.)"}
